@@ -34,6 +34,7 @@ pub mod c09;
 pub mod c16;
 pub mod c15;
 pub mod c14;
+pub mod c04;
 #[cfg(feature = "full")]
 pub mod c20;
 pub mod c17;
@@ -59,6 +60,7 @@ pub fn dispatch(cmd: &str, args: &Args, rep: &mut Report) -> bool {
         "C16" => c16::run(args, rep),
         "C15" => c15::run(args, rep),
         "C14" => c14::run(args, rep),
+        "C04" => c04::run(args, rep),
         #[cfg(feature = "full")]
         "C20" => c20::run(args, rep),
         "C17" => c17::run(args, rep),
